@@ -21,6 +21,12 @@ CLAIMS = {
  "C06": dict(level=MC, design="5-C06",
    text="The signed-digit recoding is specified as a TLA+ state machine with a fixed-width accumulator (ScalarRecode.tla) and model-checked for all scalars of widths up to 10 bits (recombination, digit bounds, buffer length; the as-shipped variant without carry is rejected by the same invariants). At full size TLC enumerates boundary scalar families x routine x width x base, the cases are replayed through every scalar-multiplication routine (C++ and C API) and TLC validates each result against double-and-add on the affine law, and each digit string / base-|x| decomposition against exact recombination.",
    note="Trusted as for C05. GLV and base-|x| decompositions are validated through results and recombination at full size; toy-parameter exhaustive instances (GlvMC/PowXMC) are not built yet."),
+ "C09": dict(level=MC, design="5-C09",
+   text="Encoding.tla defines Encode and, independently, validating Decode as a decision procedure with named reject points; TLC checks on every generated or recorded byte string that the procedure accepts exactly canonical encodings of subgroup points. TLC enumerates round trips and the mutation classes of valid encodings (flag flips, malformed identity, stray bits in each later coordinate field, coordinate+q, off-curve, x without y, outside the subgroup); the cases plus bit-flipped and random strings are decoded through the C API on asm and portable builds, and TLC compares verdict and point.",
+   note="The sign-flag convention is the library's own order (Montgomery residues), modelled as is. Byte strings are not enumerated exhaustively at 48/96/192 bytes; no toy-curve exhaustive instance yet."),
+ "C10": dict(level=MC, design="5-C10",
+   text="The rejection samplers are TLA+ state machines over the caller-supplied byte stream (Sampling.tla), model-checked over every short stream for range, no over-read, totality and uniformity (bijection). The implementation is bound through its random-source callback: TLC-generated scripted streams force 0..k rejections in every sampler (candidate = modulus, above it, unused top bits set, digit tuples >= r) and TLC validates outputs (below modulus, digits consistent, non-identity subgroup points); hash-to-scalar is checked as (input with top bit cleared) mod r, hash-to-curve as the first x >= x0 with x^3+b a square on every back end, identity derivation as the cofactor multiple in G1.",
+   note="Uniformity is shown on the specification only. The sampler's byte-consumption protocol is compared as a non-gating diagnostic so that a different but correct protocol does not alarm."),
 }
 checks = []
 for p in props:
